@@ -28,7 +28,7 @@ def obligations(tier):
     obs.append(Ob("C13.real_parsers", "CH", "harness.h_chart", "select_real", 900, funcs=(CH_ + "Chart.from_file", "chartparse.instrument.InstrumentTrack.from_chart_lines"),
                   bounds="real parsers: selected parse equals the unrestricted parse restricted; an invalid unselected section is never parsed"))
     for p in range(4):
-        obs.append(Ob(f"C13.route_twice.part{{p}}", "CH", "harness.h_chart", "route_twice", 900, {{"VF_NSEC": 1, "VF_NPARTS": 16, "VF_PART": p}},
+        obs.append(Ob(f"C13.route_twice.part{p}", "CH", "harness.h_chart", "route_twice", 900, {"VF_NSEC": 1, "VF_NPARTS": 16, "VF_PART": p},
                       funcs=("chartparse.chart.Chart.from_file",),
                       bounds="two parses in one process: a restricted parse (selection: the file's pair and/or an absent pair) of a file with one track section, then a parse of another "
                              "file with a different track section and any selection form: the second result is what it would be as a first parse (3 of 48 names per partition, 6 orders)"))
